@@ -120,6 +120,7 @@ inline void journal_case(long idx) {
 // driver can show it as the witness of a sanitizer abort).
 inline void describe_case(const std::string& d) {
     State& s = st(); s.cur_desc = d;
+    if (s.a.only >= 0 && s.a.verbose) fprintf(stderr, "[case] %s\n", d.substr(0, 6000).c_str());
     if (s.jfd >= 0) { std::string t = d.substr(0, 60000); t += "\n"; if (ftruncate(s.jfd, 21) < 0) {} if (pwrite(s.jfd, t.data(), t.size(), 21) < 0) {} }
 }
 
